@@ -276,16 +276,16 @@ def h_netstring_terminator(plen: int, term: int, extra: int) -> bool:
 
 # ---- URI extension block -------------------------------------------------------------------
 
-_UEB_SIZES = list(range(0, 12)) + [99, 100, 101, 255, 256, 999, 1000, 65535, 65536, 2 ** 32, 2 ** 64]
+_UEB_SIZES = [0, 1, 9, 10, 99, 100, 255, 256, 65535, 65536, 2 ** 32, 2 ** 64]
 
 
 def h_ueb_roundtrip(isize: int, iseg: int, nseg: int, kn: bool, hlen: int) -> bool:
     """
-    pre: 0 <= isize < 23 and 0 <= iseg < 3 and 0 <= nseg <= 1 and 0 <= hlen <= 3
+    pre: 0 <= isize < 12 and 0 <= iseg < 3 and 0 <= nseg <= 1 and 0 <= hlen <= 3
     post: _ == True
     """
     # integers are formatted with %d (realised): pinned to boundary values; hash values are byte strings full of framing characters
-    size = _UEB_SIZES[_pin(isize, 0, 22)]
+    size = _UEB_SIZES[_pin(isize, 0, 11)]
     segsize = [0, 7, 131073][_pin(iseg, 0, 2)]
     nseg = _pin(nseg, 0, 1) * 10
     (k, n) = (3, 10) if kn else (1, 1)
